@@ -14,7 +14,7 @@ try:
     r = sh("git -C %s apply %s" % (repo, patch))
     if r.returncode != 0:
         print("PATCH-DOES-NOT-APPLY:", r.stderr.strip()[:300]); sys.exit(3)
-    sh("rsync -a --exclude out --exclude .git --exclude evidence --exclude target-asan --exclude target-tsan --exclude target-miri --exclude seeded /verif/ %s/" % verif)
+    sh("rsync -a --exclude out --exclude .git --exclude evidence --exclude target-asan --exclude target-tsan --exclude target-miri --exclude seeded %s/ %s/" % (os.environ.get("VERIF_SRC", "/verif"), verif))
     os.makedirs(os.path.join(verif, "evidence"), exist_ok=True)
     ct = os.path.join(verif, "harness", "Cargo.toml")
     s = open(ct).read().replace('path = "/repo"', 'path = "%s"' % repo)
